@@ -15,6 +15,9 @@ CLAIMS = {
  "C04": ("two-party handshake, all version ranges, both patterns, payload lengths around the v0 frame limit, active MITM on version bytes (all values 0..3 on all acts) and single-byte flips: both completing => agreement on keys, version, identities, payload and rendezvous switch",
          "ideal cryptography (DESIGN 4.6); one known finding (version bytes not in the transcript) is reported as KNOWN-FINDING, any other divergence is a violation",
          "solver-based symbolic execution with symbolic MITM substitutions"),
+ "C05": ("composite symbolic run of the whole stack minus gRPC (real mailbox Server/Client, retry loops, two GBN connections, Noise handshake and record layer with ideal primitives) over an in-memory relay with symbolic stream failures and drops, plus the symbolic-length framing steps; provenance check that no relay message depends on plaintext or the auth payload",
+         "relay = in-memory FIFO mailboxes behind the HashMailClient interface; composite writes are 1..3 bytes, large sizes only through the inductive framing steps (C15) and C14/C19; relay faults<=4; default schedule",
+         "bounded symbolic execution of the composed endpoints (goroutine layer, virtual time, ideal crypto) with symbolic relay fault schedule"),
  "C06": ("bounded whole-endpoint symbolic runs on the virtual clock with a finite symbolic fault prefix, then reliable transport: delivery within the horizon, no closure, no retransmission after full acknowledgement; dedicated tail-loss-under-peer-traffic scenario",
          "bounds: window<=2, messages<=3, faults<=3 per direction, default schedule (+1 deviation thorough), horizon 600 virtual seconds",
          "bounded symbolic execution of both endpoints with discrete-event virtual time and symbolic fault schedule"),
@@ -30,6 +33,9 @@ CLAIMS = {
  "C10": ("real client and server constructors run against each other on the virtual clock with symbolic fates for the first handshake packets of each direction, stale packets with symbolic bytes, three start orders and four window sizes, followed by a request/reply exchange: no crash, no silent hang, no foreign window, fault-free attempts succeed",
          "bounds: faults<=3 per direction, <=2 stale packets of <=3 symbolic bytes, horizon 120 virtual s; a stray duplicate that tears the fresh connection down visibly is accepted (the statement's 'fails with an error' branch)",
          "bounded symbolic execution of both endpoints (goroutine layer, discrete-event virtual time, symbolic fault schedule)"),
+ "C11": ("real Server.Accept/Client.Dial over the in-memory relay: a second Accept/Dial does not return while the first connection is open, returns a fresh working connection after close, both parties move to the same key-derived rendezvous and use the key-based pattern; unpaired client refused",
+         "one reconnect cycle per run, relay faults<=2, default schedule; ideal cryptography; in-memory relay model",
+         "bounded symbolic execution of the composed endpoints with ideal crypto"),
  "C12": ("Close injected at several instants of virtual time by either/both sides, once or twice, with blocked Send/Recv, healthy or silent transport, keep-alive on/off: bounded return, failing calls, peer notification, and an empty set of goroutines and tickers at quiescence",
          "bounds: window<=2, 5 close instants, default schedule (+1 deviation and one symbolic packet fate in thorough)",
          "bounded symbolic execution with engine-owned scheduler; leak check on the engine's goroutine/timer tables"),
